@@ -3,14 +3,12 @@ package main
 
 import (
 	"fmt"
-	"go/ast"
 	"go/types"
 	"os"
 	"sort"
 	"strings"
 	"time"
 
-	"golang.org/x/tools/go/packages"
 
 	"verifsa/core"
 	"verifsa/eng"
@@ -38,17 +36,17 @@ func main() {
 		}
 		fmt.Println("sites", n, "bad", bad)
 	case "lastelem":
-		p.Decls(true, func(pkg *packages.Package, obj *types.Func, fd *ast.FuncDecl) {
-			for _, s := range eng.LastElemSites(pkg, fd) {
-				fmt.Printf("%v %s %s x=%s type=%v  %s\n", s.Guarded, p.Pos(s.Expr.Pos()), core.ObjName(obj), s.X, s.XType, s.How)
+		for _, fn := range p.SrcFuncs(true) {
+			for _, s := range eng.LastElemSitesSSA(fn) {
+				fmt.Printf("%v %s %s param=%d %s\n", s.Guarded, p.Pos(s.Instr.Pos()), core.FuncName(fn), s.Param, s.How)
 			}
-		})
+		}
 	case "chain":
-		p.Decls(true, func(pkg *packages.Package, obj *types.Func, fd *ast.FuncDecl) {
-			for _, s := range eng.ChainLoops(pkg, fd) {
-				fmt.Printf("%v %s %s elem=%s L%d off=%s  %s\n", s.OK, p.Pos(s.Loop.Pos()), core.ObjName(obj), s.Elem, s.Level, s.Offset, s.Why)
+		for _, fn := range p.SrcFuncs(true) {
+			for _, s := range eng.ChainLoopsSSA(fn) {
+				fmt.Printf("%v %s %s L%d %s\n", s.OK, p.Pos(s.Pos), core.FuncName(fn), s.Level, s.Why)
 			}
-		})
+		}
 	case "extcalls":
 		cnt := map[string]int{}
 		for _, fn := range p.SrcFuncs(true) {
